@@ -109,28 +109,45 @@ def kf7():
             return True
 
 
+def answering(pred):
+    """Replace the unseeded draw by another LEGAL answer of the same strategy (hypothesis.find proves the strategy can return it)."""
+    from hypothesis import find, settings
+
+    real = coverage.cached_draw
+
+    def draw(strategy):
+        try:
+            return find(strategy, lambda v: isinstance(v, str) and pred(v), settings=settings(max_examples=500, database=None))
+        except Exception:
+            return real(strategy)
+
+    return real, draw
+
+
 def kf8_9_10():
-    """pattern x length: generate_from_schema draws from_regex(pattern) and ignores the length keywords (needs an unlucky draw)."""
+    """pattern x length: generate_from_schema draws from_regex(pattern) and ignores the length keywords."""
     found = set()
     s1 = {"type": "string", "maxLength": 1, "pattern": "a"}
     s2 = {"type": "string", "minLength": 2, "pattern": "^[ab]{1,2}$"}
     s3 = {"type": "string", "minLength": 2, "pattern": "^a+$"}
-    for _ in range(300):
-        for v in values(s1, [P]):
+    for v in values(s2, [P]):  # deterministic
+        if not ok(s2, v.value):
+            found.add("9")
+            print("KF-C03-9", v.description, repr(v.value), "violates", s2)
+    real, draw = answering(lambda v: len(v) > 1)
+    coverage.cached_draw = draw
+    try:
+        for v in cover_schema_iter(CoverageContext(location="body", generation_modes=[P]), dict(s1)):
             if not ok(s1, v.value) and "8" not in found:
                 found.add("8")
-                print("KF-C03-8", v.description, repr(v.value), "violates", s1)
-        for v in values(s2, [P]):
-            if not ok(s2, v.value) and "9" not in found:
-                found.add("9")
-                print("KF-C03-9", v.description, repr(v.value), "violates", s2)
-        for v in values(s3, [N]):
+                print("KF-C03-8", v.description, repr(v.value), "violates", s1, "(draw answered with a non-simplest example)")
+        for v in cover_schema_iter(CoverageContext(location="body", generation_modes=[N]), dict(s3)):
             if v.description == "String smaller than minLength" and ok(s3, v.value) and "10" not in found:
                 found.add("10")
-                print("KF-C03-10", v.description, repr(v.value), "conforms to", s3)
-        if len(found) == 3:
-            return True
-    print("found only", found)
+                print("KF-C03-10", v.description, repr(v.value), "conforms to", s3, "(draw answered with a non-simplest example)")
+    finally:
+        coverage.cached_draw = real
+    return len(found) == 3
 
 
 def kf11_12():
@@ -170,10 +187,10 @@ def kf15_16():
     for c in cases(op, [N]):
         d = c.meta.phase.data
         if d.description == "Incorrect type" and d.parameter == "p" and isinstance(c.query["p"], str) and not a:
-            print("KF-C03-15", show(c))
+            print("KF-C03-15/16", show(c))
             a = True
         if d.description.startswith("Unspecified HTTP method") and not b:
-            print("KF-C03-16 (template values of negative-only mode)", show(c))
+            print("KF-C03-17 (template values of negative-only mode)", show(c))
             b = True
     return a and b
 
@@ -184,19 +201,19 @@ def kf17_18():
     a = b = False
     for c in cases(op, [P]):
         if c.meta.generation.mode == P and (c.query is None or "p" not in c.query):
-            print("KF-C03-17", show(c), "- required `p` is absent")
+            print("KF-C03-18/19", show(c), "- required `p` is absent")
             a = True
             break
     for c in cases(op, [P, N]):
         if c.meta.generation.mode == P and any(v.mode == N for v in c.meta.components.values()):
-            print("KF-C03-18", show(c))
+            print("KF-C03-20", show(c))
             b = True
             break
     return a and b
 
 
 ALL = {"KF-C03-1": kf1, "KF-C03-2": kf2, "KF-C03-3": kf3, "KF-C03-4": kf4, "KF-C03-5": kf5, "KF-C03-6": kf6, "KF-C03-7": kf7,
-       "KF-C03-8": kf8_9_10, "KF-C03-11": kf11_12, "KF-C03-13": kf13, "KF-C03-14": kf14, "KF-C03-15": kf15_16, "KF-C03-17": kf17_18}
+       "KF-C03-8": kf8_9_10, "KF-C03-11": kf11_12, "KF-C03-13": kf13, "KF-C03-14": kf14, "KF-C03-15": kf15_16, "KF-C03-18": kf17_18}
 
 if __name__ == "__main__":
     wanted = sys.argv[1:] or list(ALL)
